@@ -6,10 +6,14 @@ From V.C07 Require Import Model Spec Proofs Inv Balance FeeMono Balance2.
 From Coq Require Import ZifyBool.
 Local Open Scope Z_scope.
 
+Definition counts_nonneg (wm : meta) : Prop := Forall (fun v => 0 <= v) (flatten (map (option_map fst) wm)).
+
+(** outside the known-finding class: a single change output is produced anyway (single-output
+    strategy, or a target of one note), or the split minimum is at least the dust threshold *)
 Definition split_guard (c : config) : Prop :=
   match strat c with
   | Single => True
-  | Multi t ms _ => exists m, ms = Some m /\ threshold c <= m
+  | Multi t ms wm => (t = 1 /\ counts_nonneg wm) \/ exists m, ms = Some m /\ threshold c <= m
   end.
 
 Lemma split_loop_spec fuel : forall count tc mv, 1 <= count ->
@@ -20,18 +24,37 @@ Proof.
   destruct (count - 1 =? 0) eqn:E2; [left; reflexivity|]. apply IH. lia.
 Qed.
 
+Lemma reduce_usize_inv l : forall acc s, 0 <= acc -> reduce_usize acc l = Some s -> 0 <= s.
+Proof.
+  induction l as [|x r IH]; intros acc s Ha H; cbn [reduce_usize] in H; [inversion H; lia|].
+  destruct (usize_add acc x) as [a|] eqn:E; [|discriminate]. apply usize_add_inv in E. eapply IH; [|exact H]. lia.
+Qed.
+Lemma total_note_count_nonneg wm nc : counts_nonneg wm -> total_note_count wm = Ok nc ->
+  match nc with Some n => 0 <= n | None => True end.
+Proof.
+  unfold counts_nonneg, total_note_count. intros F. destruct (flatten _) as [|a r]; [intros H; inversion H; exact I|].
+  inversion F; subst. destruct (reduce_usize a r) eqn:E; [|discriminate]. intros H; inversion H; subst.
+  eapply reduce_usize_inv; [|exact E]. assumption.
+Qed.
+
 Lemma split_of_guarded c wt proposed s : split_of c wt proposed = Ok s -> split_guard c ->
   s = 1 \/ threshold c <= proposed / s.
 Proof.
   unfold split_of, split_guard. destruct wt; [intros H; inversion H; auto|].
   destruct (strat c) as [|t ms wm]; [intros H; inversion H; auto|].
-  intros H G. apply bind_ok in H as (nc & _ & H). apply bind_ok in H as (tv & _ & H). inversion H; subst s; clear H.
+  intros H G. apply bind_ok in H as (nc & Enc & H). apply bind_ok in H as (tv & _ & H). inversion H; subst s; clear H.
   unfold split_count.
   set (c0 := usize_sat_sub t _). set (count := if c0 =? 0 then 1 else c0).
   assert (1 <= count) by (subst count c0; unfold usize_sat_sub; destruct (Z.max 0 _ =? 0) eqn:E; lia).
-  destruct G as (m & -> & Hm).
-  pose proof (split_loop_spec (Z.to_nat count) count proposed m H) as S. cbv zeta in S.
-  destruct S as [S|S]; [left; exact S|right]. lia.
+  destruct G as [(-> & Cn) | (m & -> & Hm)].
+  - left. pose proof (total_note_count_nonneg _ _ Cn Enc) as Hn.
+    assert (count = 1).
+    { subst count c0. unfold usize_sat_sub. destruct nc as [n|]; [|rewrite usize_val]; destruct (Z.max 0 _ =? 0) eqn:E; lia. }
+    rewrite H0.
+    destruct ms as [v|]; [|destruct (A.oopt_lift _ tv proposed); [|reflexivity]];
+      match goal with |- split_loop _ 1 _ ?mv = 1 => pose proof (split_loop_ge1 (Z.to_nat 1) 1 proposed mv ltac:(lia)); lia end.
+  - pose proof (split_loop_spec (Z.to_nat count) count proposed m H) as S. cbv zeta in S.
+    destruct S as [S|S]; [left; exact S|right]. lia.
 Qed.
 
 Definition each_ok (c : config) (v : cv) : Prop := cv_value v = 0 \/ threshold c <= cv_value v.
